@@ -58,7 +58,7 @@ func init() {
 }
 
 `
-	addRound4("C11", "(L6) no loader of certificate material that a reload loop of package cert calls (followed through function values, closures, methods and the package's own interfaces) returns material REMEMBERED from an earlier call - a captured variable of a closure whose enclosing function is not part of the call, a package variable, a field of something handed in - on a path that has not EXAMINED the source in this call (directory walk or listing, file read, HTTP request, Consul KV query, Vault read; a stat of the root name is not an examination: a directory's modification time does not move when a file in it is rewritten): otherwise the loop compares the old material with itself and a certificate renewed in place never takes effect.", runC11L6,
+	addRound4("C11", "(L6) no loader of certificate material that a reload loop of package cert calls (followed through function values, closures, methods and the package's own interfaces) returns material REMEMBERED from an earlier call - a captured variable of a closure whose enclosing function is not part of the call, a package variable, a field of something handed in - on a path that has not EXAMINED the source in this call (directory walk or listing, file read, HTTP request, Consul KV query, Vault read, a call of another loader, a call of a helper without a material result that does one of these on all its paths; a stat of the root name is not an examination: a directory's modification time does not move when a file in it is rewritten; a field of the receiver that every way to the return has stored into in this call is as old as what was stored): otherwise the loop compares the old material with itself and a certificate renewed in place never takes effect.", runC11L6,
 		mutant{Name: "path loader memoised on the directory's mtime, cache in a struct with a load method", File: pathSrc, Old: goWatch, New: "\tgo watch(ch, s.Refresh, path, (&pathCache{}).load)\n", Expect: "C11.L6", More: []repl{{fpImport, "\t\"os\"\n" + fpImport}, {makePath, `type pathCache struct {
 	modTime time.Time
 	blocks  map[string][]byte
@@ -218,7 +218,7 @@ func loadPathDeduplicated() func(root string) (map[string][]byte, error) {
 		mutant{Name: "Vault loader keeps its result in a field of the source and hands it out again for an hour", File: "cert/vault_source.go", Old: "type VaultSource struct {\n", New: "type VaultSource struct {\n\tcached   map[string][]byte\n\tcachedAt time.Time\n", Expect: "C11.L6", More: []repl{{"\tpemBlocks = map[string][]byte{}\n", "\tif s.cached != nil && time.Since(s.cachedAt) < time.Hour {\n\t\treturn s.cached, nil\n\t}\n\tdefer func() {\n\t\tif err == nil {\n\t\t\ts.cached, s.cachedAt = pemBlocks, time.Now()\n\t\t}\n\t}()\n\tpemBlocks = map[string][]byte{}\n"}}},
 		mutant{Name: "benign: change test moved into a helper that returns the new blocks it was given", File: watchFile, Old: "\t\tif reflect.DeepEqual(next, last) {\n", New: "\t\tif _, changed := changedBlocks(next, last); !changed {\n", Expect: "", More: []repl{{watchDoc, "func changedBlocks(next, last map[string][]byte) (map[string][]byte, bool) {\n\tif reflect.DeepEqual(next, last) {\n\t\treturn last, false\n\t}\n\treturn next, true\n}\n\n" + watchDoc}}},
 	)
-	addRound4("C11", "(L7) every cycle of a reload loop (a loop of package cert that examines a source or receives material and sends certificates or material) examines the source or receives material: no cycle skips the load on a cheap 'unchanged' test.", runC11L7,
+	addRound4("C11", "(L7) every cycle of a reload loop (a loop of package cert that examines a source or receives material and sends certificates or material) examines the source or receives material: no cycle skips the load on a cheap 'unchanged' test. A call of a step, poll or fetch helper without a material result counts when the helper examines on all its paths, or on all its paths to the verdict under which the loop goes on; a condition-less polling loop of a function that returns material (the watcher's wait-for-change moved out) is a reload loop too.", runC11L7,
 		mutant{Name: "watch skips the load while the modification time of the path is unchanged", File: watchFile, Old: loadCall, New: "\t\tif fi, err := os.Stat(path); err == nil {\n\t\t\tif last != nil && fi.ModTime().Equal(lastMod) {\n\t\t\t\ttime.Sleep(refresh)\n\t\t\t\tcontinue\n\t\t\t}\n\t\t\tlastMod = fi.ModTime()\n\t\t}\n" + loadCall, Expect: "C11.L7", More: []repl{{lastDecl, lastDecl + "\tvar lastMod time.Time\n"}, {logImport, logImport + "\t\"os\"\n"}}},
 		mutant{Name: "watch asks a stamp helper whether the path changed and skips the load otherwise", File: watchFile, Old: loadCall, New: "\t\tif last != nil && !stamp.changed(path) {\n\t\t\ttime.Sleep(refresh)\n\t\t\tcontinue\n\t\t}\n" + loadCall, Expect: "C11.L7", More: []repl{{lastDecl, lastDecl + "\tstamp := &dirStamp{}\n"}, {logImport, logImport + "\t\"os\"\n"}, {watchDoc, `type dirStamp struct {
 	mod time.Time
@@ -255,7 +255,9 @@ const c11vaultPkg = "github.com/hashicorp/vault/api"
 // Deliberately absent: os.Stat, os.Lstat, (*os.File).Stat, os.Open, net/http.Head - they deliver metadata of one name.
 var c11sourceReads = map[string]bool{
 	"os.ReadFile": true, "os.ReadDir": true, "io/ioutil.ReadFile": true, "io/ioutil.ReadDir": true, "io/ioutil.ReadAll": true,
-	"io.ReadAll": true, "io.ReadFull": true, "io.Copy": true, "io.CopyN": true, "io/fs.ReadFile": true, "io/fs.ReadDir": true, "io/fs.WalkDir": true, "io/fs.Glob": true,
+	"io.ReadAll": true, "io.ReadFull": true, "io.ReadAtLeast": true, "io.Copy": true, "io.CopyN": true, "io.CopyBuffer": true,
+	"(*bytes.Buffer).ReadFrom": true, "(*bufio.Reader).WriteTo": true, "(*bufio.Reader).ReadSlice": true, "(*bufio.Reader).ReadByte": true, "(*bufio.Reader).ReadRune": true, "(*bufio.Reader).Peek": true,
+	"(*encoding/json.Decoder).Decode": true, "(*os.Root).ReadFile": true, "io/fs.ReadFile": true, "io/fs.ReadDir": true, "io/fs.WalkDir": true, "io/fs.Glob": true,
 	"path/filepath.Walk": true, "path/filepath.WalkDir": true, "path/filepath.Glob": true,
 	"(*os.File).Read": true, "(*os.File).ReadAt": true, "(*os.File).ReadDir": true, "(*os.File).Readdir": true, "(*os.File).Readdirnames": true, "(*os.File).ReadFrom": true, "(*os.File).WriteTo": true,
 	"(*bufio.Reader).Read": true, "(*bufio.Reader).ReadString": true, "(*bufio.Reader).ReadBytes": true, "(*bufio.Reader).ReadLine": true, "(*bufio.Scanner).Scan": true,
@@ -267,6 +269,22 @@ var c11sourceReads = map[string]bool{
 var c11sourceReadPrefixes = []string{
 	"(*" + apiPkg + ".KV).", "(*" + c11vaultPkg + ".Logical).", "(*" + c11vaultPkg + ".KVv1).", "(*" + c11vaultPkg + ".KVv2).",
 	"(*" + c11vaultPkg + ".Client).RawRequest",
+}
+
+// c11isReaderInvoke: a read through one of the standard reader interfaces (io.Reader, io.ReaderAt, io.ReaderFrom,
+// io.WriterTo, fs.File, fs.ReadDirFile, fs.ReadFileFS, fs.ReadDirFS, also embedded in an interface of the repository's
+// own: `f.Read(buf)` with f an fs.File, `src.ReadFile(name)` with src an fs.ReadFileFS) looks at content like the
+// concrete (*os.File).Read does.
+func c11isReaderInvoke(cc *ssa.CallCommon) bool {
+	if cc == nil || !cc.IsInvoke() || cc.Method == nil || cc.Method.Pkg() == nil {
+		return false
+	}
+	switch cc.Method.Pkg().Path() {
+	case "io", "io/fs":
+		n := cc.Method.Name()
+		return strings.HasPrefix(n, "Read") || n == "WriteTo"
+	}
+	return false
 }
 
 func c11isSourceRead(name string) bool {
@@ -331,6 +349,7 @@ func c11materialResults(fn *ssa.Function) []int {
 // package's own interfaces, function values in locals, parameters, fields and package variables).
 type c11examiner struct {
 	memo map[*ssa.Function]int // 0 unknown, 1 in progress / no, 2 yes
+	must map[*ssa.Function]int // mustExamine: 0 unknown, 1 in progress / no, 2 yes
 }
 
 // receives: the instruction takes a value of certificate material (or certificates) from a channel.
@@ -366,6 +385,9 @@ func (e *c11examiner) examines(i ssa.Instruction, lenient bool) bool {
 			return true
 		}
 	}
+	if c11isReaderInvoke(cc) {
+		return true
+	}
 	fns := c11callees(cc)
 	if cc.IsInvoke() && len(fns) == 0 {
 		fns = c11implementationsOf(cc, true)
@@ -381,6 +403,117 @@ func (e *c11examiner) examines(i ssa.Instruction, lenient bool) bool {
 		}
 	}
 	return false
+}
+
+// surely: i examines the source whenever it is executed - a library read, a call of a loader (a repository function with
+// a material result that may examine a source: it is judged on its own by L6), or a call of a helper WITHOUT a material
+// result (a step, poll or fetch method, a signature helper) that does so on every path from its entry to a return. A
+// helper that examines on some of its paths only (`if !stamp.changed(path) { return }` in front of the load) is no
+// examination: the cycle, or the loader's path, that goes through it may have looked at nothing. A function value nobody
+// can resolve gets the benefit of the doubt.
+func (e *c11examiner) surely(i ssa.Instruction) bool { return e.surelyAt(i, 0) }
+
+func (e *c11examiner) surelyAt(i ssa.Instruction, depth int) bool {
+	call, ok := i.(*ssa.Call)
+	if !ok {
+		return false
+	}
+	cc := &call.Call
+	names := c11calleeNames(cc)
+	for _, n := range names {
+		if c11isSourceRead(n) {
+			return true
+		}
+	}
+	if c11isReaderInvoke(cc) {
+		return true
+	}
+	fns := c11callees(cc)
+	if cc.IsInvoke() && len(fns) == 0 {
+		fns = c11implementationsOf(cc, true)
+	}
+	if len(fns) == 0 {
+		if !cc.IsInvoke() && cc.StaticCallee() == nil && len(names) == 0 {
+			_, isBuiltin := cc.Value.(*ssa.Builtin)
+			return !isBuiltin
+		}
+		return false
+	}
+	for _, g := range fns {
+		if len(c11materialResults(g)) > 0 {
+			if !e.mayExamine(g) && !e.callsUnknown(g) {
+				return false
+			}
+			continue
+		}
+		if !e.mustExamine(g, depth+1) {
+			return false
+		}
+	}
+	return true
+}
+
+// callsUnknown: fn calls a function value nobody can resolve (an adapter type `func (f loaderFunc) loadPEM(p) { return
+// f(p) }` reached through an interface only): benefit of the doubt.
+func (e *c11examiner) callsUnknown(fn *ssa.Function) bool {
+	hit := false
+	eachInstr(fn, func(i ssa.Instruction) {
+		if !hit && e.examines(i, true) {
+			hit = true
+		}
+	})
+	return hit
+}
+
+// mustExamine: every path from fn's entry to a return passes an instruction that surely examines the source.
+func (e *c11examiner) mustExamine(fn *ssa.Function, depth int) bool {
+	if fn == nil || len(fn.Blocks) == 0 || depth > 4 {
+		return false
+	}
+	if e.must == nil {
+		e.must = map[*ssa.Function]int{}
+	}
+	if s := e.must[fn]; s != 0 {
+		return s == 2
+	}
+	if !e.mayExamine(fn) {
+		e.must[fn] = 1
+		return false
+	}
+	e.must[fn] = 1 // in progress: a recursive call is no examination
+	res := 2
+	seen := map[*ssa.BasicBlock]bool{fn.Blocks[0]: true}
+	stack := []*ssa.BasicBlock{fn.Blocks[0]}
+	for len(stack) > 0 && res == 2 {
+		b := stack[len(stack)-1]
+		stack = stack[:len(stack)-1]
+		blocked := false
+		for _, in := range b.Instrs {
+			if e.surelyAt(in, depth) {
+				blocked = true
+				break
+			}
+			if _, isRet := in.(*ssa.Return); isRet {
+				res = 1
+				break
+			}
+		}
+		if blocked || res != 2 {
+			continue
+		}
+		for _, sc := range b.Succs {
+			if !seen[sc] {
+				seen[sc] = true
+				stack = append(stack, sc)
+			}
+		}
+	}
+	if depth <= 1 {
+		e.must[fn] = res // deeper verdicts may be cut short by the depth limit: not remembered
+	} else {
+		delete(e.must, fn)
+	}
+	return res == 2
 }
 
 func (e *c11examiner) mayExamine(fn *ssa.Function) bool {
@@ -442,8 +575,8 @@ func c11reachedUnexamined(target ssa.Instruction, pass func(ssa.Instruction) boo
 
 // ---- reload loops and their loaders ----------------------------------------------------------------------------------
 
-// c11reloadLoop: a loop of package cert that may send certificates or material on a channel and examines a source (or
-// receives material) somewhere in its body.
+// c11reloadLoop: a loop of package cert that may send certificates or material on a channel (or is a condition-less loop
+// of a function that returns material) and examines a source (or receives material) somewhere in its body.
 type c11reloadLoop struct {
 	fn *ssa.Function
 	l  *loop
@@ -469,7 +602,10 @@ func c11reloadLoops(c *Ctx, e *c11examiner) []c11reloadLoop {
 					}
 				}
 			}
-			if snd && looks {
+			// a polling loop moved out of the watcher into a function of its own that hands the material back
+			// (`next := waitForChange(loadFn, path, last, refresh)`) is the same loop: it sends by returning
+			polls := !snd && looks && l.Head.Comment == "for.body" && len(c11materialResults(f)) > 0
+			if looks && (snd || polls) {
 				out = append(out, c11reloadLoop{f, l})
 			}
 		}
@@ -549,7 +685,7 @@ func (w *c11freshWalk) inFrames(fn *ssa.Function) int {
 // remembered: the value comes from memory that outlives the call. It is stale when every instruction it passed on its
 // way out can be reached from the entry of its function without the source having been examined.
 func (w *c11freshWalk) remembered(what string) {
-	pass := func(i ssa.Instruction) bool { return w.e.examines(i, true) }
+	pass := w.e.surely
 	for _, m := range w.marks {
 		if !c11reachedUnexamined(m, pass) {
 			return
@@ -617,6 +753,9 @@ func (w *c11freshWalk) origins(v ssa.Value, deref bool, depth int) {
 		w.origins(x.X, deref, depth+1)
 	case *ssa.UnOp:
 		if x.Op == token.MUL {
+			if fa, isField := x.X.(*ssa.FieldAddr); isField && w.writtenInThisCall(x, fa, deref, depth) {
+				return
+			}
 			w.origins(x.X, deref, depth+1) // a load of a cell is the value kept there, not a part of something
 		}
 	case *ssa.Alloc:
@@ -675,6 +814,13 @@ func (w *c11freshWalk) origins(v ssa.Value, deref bool, depth int) {
 		}
 		// a helper's parameter: the argument at the call this walk came in through
 		call := w.calls[k-1]
+		if call == nil {
+			// a frame entered for a store it makes (writtenInThisCall): its parameters are as opaque as the loader's
+			if deref {
+				w.remembered("a field or element of parameter " + x.Name() + " of " + fnKey(fn) + ", which outlives the call")
+			}
+			return
+		}
 		args := call.Call.Args
 		off := 0
 		if call.Call.IsInvoke() {
@@ -691,6 +837,68 @@ func (w *c11freshWalk) origins(v ssa.Value, deref bool, depth int) {
 			}
 		}
 	}
+}
+
+// writtenInThisCall: ld loads field fa of something handed in, but every way to it - in its own function, or in one of
+// the frames above it up to the call that entered it - passes a store into that field (of the same struct type; directly
+// or in a helper that stores on all its paths): a loader type that keeps its result in a field (`l.blocks = map...;
+// filepath.Walk(root, l.visit); return l.blocks`, `w.fetch(); return w.next`). What the field holds was put there in
+// this call, so the value is as old as what was stored: the origins of every value stored into that field by the
+// functions of this call, and - judged on their own - by the other functions of the repository.
+func (w *c11freshWalk) writtenInThisCall(ld *ssa.UnOp, fa *ssa.FieldAddr, deref bool, depth int) bool {
+	k := w.inFrames(ld.Parent())
+	if k < 0 {
+		return false
+	}
+	key := c11fieldKey(fa.X.Type(), fa.Field)
+	stores := c11storeIdx().fields[key]
+	if len(stores) == 0 {
+		return false
+	}
+	isStore := func(i ssa.Instruction) bool {
+		st, ok := i.(*ssa.Store)
+		if !ok {
+			return false
+		}
+		a, ok := st.Addr.(*ssa.FieldAddr)
+		return ok && c11fieldKey(a.X.Type(), a.Field) == key
+	}
+	defines := liftMust(isStore, 1)
+	covered := false
+	var target ssa.Instruction = ld
+	for ; k >= 0; k-- {
+		if !c11reachedUnexamined(target, defines) {
+			covered = true
+			break
+		}
+		if k == 0 || w.calls[k-1] == nil {
+			break
+		}
+		target = w.calls[k-1]
+	}
+	if !covered {
+		return false
+	}
+	for _, st := range stores {
+		st := st
+		if st.Val == ssa.Value(ld) {
+			continue // x.f = x.f
+		}
+		if w.inFrames(st.Parent()) >= 0 {
+			w.with(st, func() { w.origins(st.Val, deref, depth+1) })
+			continue
+		}
+		if len(w.frames) > 5 {
+			continue
+		}
+		// a store made by another function (a helper of this call, or unrelated code): judged in a frame of its own
+		w.frames = append(w.frames, st.Parent())
+		w.calls = append(w.calls, nil)
+		w.with(st, func() { w.origins(st.Val, deref, depth+1) })
+		w.calls = w.calls[:len(w.calls)-1]
+		w.frames = w.frames[:len(w.frames)-1]
+	}
+	return true
 }
 
 // call: the value is result idx of call. A copy made by a library function is as old as what it copies.
@@ -769,12 +977,44 @@ func runC11L6(c *Ctx) {
 
 // ---- L7: every cycle of a reload loop looks at the source ------------------------------------------------------------
 
+// c11edgeExamined: block b of loop l ends in a branch on the verdict of a helper called in this cycle (`for !w.step() {}`,
+// `if w.step() { return }`), and every path of that helper to a return carrying the verdict of edge k has examined the
+// source: a helper that returns at once with the verdict that ends the loop (watcher stopped, context cancelled) does
+// not make the other cycles blind.
+func c11edgeExamined(e *c11examiner, l *loop, b *ssa.BasicBlock, k int) bool {
+	if len(b.Instrs) == 0 || len(b.Succs) != 2 || b.Succs[0] == b.Succs[1] {
+		return false
+	}
+	iff, isIf := b.Instrs[len(b.Instrs)-1].(*ssa.If)
+	if !isIf {
+		return false
+	}
+	for _, f := range appendCondFacts(nil, iff.Cond, k == 0, 0) {
+		v, idx := f.Cond, 0
+		if x, isX := v.(*ssa.Extract); isX {
+			v, idx = x.Tuple, x.Index
+		}
+		call, isCall := v.(*ssa.Call)
+		if !isCall || !l.Body[call.Block()] {
+			continue
+		}
+		h := c11callee(&call.Call)
+		if h == nil || len(c11materialResults(h)) > 0 {
+			continue
+		}
+		if c11allWaysToVerdict(h, idx, f.Truth, e.surely) {
+			return true
+		}
+	}
+	return false
+}
+
 func runC11L7(c *Ctx) {
 	c11useCtx(c)
 	e := &c11examiner{}
 	loops := c11reloadLoops(c, e)
 	for _, rl := range loops {
-		looks := func(i ssa.Instruction) bool { return e.examines(i, true) || c11receivesMaterial(i) }
+		looks := func(i ssa.Instruction) bool { return e.surely(i) || c11receivesMaterial(i) }
 		// a cycle head -> head on which nothing looks at the source
 		var witness ssa.Instruction
 		seen := map[*ssa.BasicBlock]bool{}
@@ -792,8 +1032,10 @@ func runC11L7(c *Ctx) {
 			if blocked {
 				continue
 			}
-			for _, s := range b.Succs {
+			for k, s := range b.Succs {
 				switch {
+				case c11edgeExamined(e, rl.l, b, k):
+					// the verdict of a step helper on this edge says it has examined the source
 				case s == rl.l.Head:
 					witness = c11lastInstr(b)
 				case rl.l.Body[s] && !seen[s]:
